@@ -78,7 +78,12 @@ def bech32_encode(hrp, data, spec):
 
 
 def bech32_decode(bech):
-    """Validate a Bech32/Bech32m string, and determine HRP and data."""
+    """Validate a Bech32 string, and determine HRP and data.
+
+    Cardano (CIP-5, CIP-19) uses Bech32 (BIP-173) only: a string whose checksum
+    is valid under the Bech32m constant (BIP-350) is rejected like any other
+    string with an invalid checksum.
+    """
     if (any(ord(x) < 33 or ord(x) > 126 for x in bech)) or (
         bech.lower() != bech and bech.upper() != bech
     ):
@@ -92,7 +97,7 @@ def bech32_decode(bech):
     hrp = bech[:pos]
     data = [CHARSET.find(x) for x in bech[pos + 1 :]]
     spec = bech32_verify_checksum(hrp, data)
-    if spec is None:
+    if spec != Encoding.BECH32:
         return (None, None, None)
     return (hrp, data[:-6], spec)
 
